@@ -41,6 +41,9 @@ def required_formals(fn) -> list[str]:
             if p.default is inspect.Parameter.empty and p.kind in (p.POSITIONAL_ONLY, p.POSITIONAL_OR_KEYWORD)]
 
 
+SHARED_AXIS = np.array([431.0, 1507.0, 2750.5, 4203.0, 6111.0, 8019.0])
+
+
 # ---- parameter sets -------------------------------------------------------------------------------------------
 def param_set(rng: np.random.Generator) -> dict:
     """A Fluid parameter set and call arguments inside the correlations' ranges with pairwise different values
@@ -59,6 +62,9 @@ def param_set(rng: np.random.Generator) -> dict:
         }
         n = int(rng.integers(3, 7))
         p = np.sort(rng.uniform(120.0, 9000.0, n))
+        shared = bool(rng.random() < 0.3)
+        if shared:
+            p = SHARED_AXIS.copy()   # several fluids of one study are evaluated on the same pressure axis
         if rng.random() < 0.5:
             p = np.roll(p, 1)   # not ascending, and the sorting permutation is a cycle (not its own inverse)
         if rng.random() < 0.25:
@@ -67,7 +73,9 @@ def param_set(rng: np.random.Generator) -> dict:
         ok = all(abs(x - y) > 1e-3 * max(abs(x), abs(y)) for i, x in enumerate(vals) for y in vals[i + 1:])
         if ok and abs(f["salinity"] - 15.0) > 0.2:
             a["pressure"] = p
-            return {"fields": f, "args": a}
+            # a column of a table that was sorted or filtered: a pandas Series whose index is not 0..n-1
+            box = "series" if (p.dtype.kind == "f" and rng.random() < 0.25) else "array"
+            return {"fields": f, "args": a, "pressure_box": box}
 
 
 def new_fluid(fields: dict):
@@ -76,8 +84,18 @@ def new_fluid(fields: dict):
     return Fluid(**fields)
 
 
+def _boxed(ps: dict, name: str):
+    v = ps["args"][name]
+    if name == "pressure" and ps.get("pressure_box") == "series":
+        import pandas as pd  # noqa: PLC0415
+
+        n = len(v)
+        return pd.Series(np.asarray(v).copy(), index=[(3 * i + 1) % n if n % 3 else (i + 1) % n for i in range(n)])
+    return v
+
+
 def call_facade(method: str, ps: dict, call_args: list[str], reuse: bool = False):
-    args = [ps["args"][a] for a in call_args]
+    args = [_boxed(ps, a) for a in call_args]
     if not reuse:
         return getattr(new_fluid(ps["fields"]), method)(*args)
     # the same (mutable dataclass) object was used before with other field values and the same call arguments: the
